@@ -42,7 +42,7 @@ Theorem C09_unsupported_reported_gostring : forall t, has_unsup true false t = t
 Proof. exact unsupported_reported_gostring. Qed.
 Print Assumptions C09_unsupported_reported_gostring.
 
-(* ---- each Add accepts exactly the documented shapes (32 of the 33 plugins; not compose) ---- *)
+(* ---- each Add accepts exactly the documented shapes (all 33 plugins) ---- *)
 Theorem C09_validate_exact_all_any_filter_takewhile : forall typs,
   add_pred typs = Ok <->
   exists t, typs = [ASig (TCons t TNil) (TCons (ABasic KBool) TNil) false; ASlice t].
@@ -124,6 +124,16 @@ Theorem C09_validate_exact_do : forall typs,
   Forall (fun t => exists r e v, t = ASig TNil (TCons r (TCons e TNil)) v /\ is_error e = true) typs.
 Proof. exact validate_exact_do. Qed.
 Print Assumptions C09_validate_exact_do.
+(* compose: two or more non-variadic functions that return an error last; the other results of each
+   are assignable, one by one, to the parameters of the next (compose_links, Exact.v) *)
+Theorem C09_validate_exact_compose : forall typs,
+  add_compose typs = Ok <->
+  2 <= length typs /\
+  exists l : list (atys * atys),
+    Forall2 (fun t pr => exists e, t = ASig (fst pr) (snd pr) false /\ alast (snd pr) = Some e /\ is_error e = true) typs l /\
+    compose_links l.
+Proof. exact validate_exact_compose. Qed.
+Print Assumptions C09_validate_exact_compose.
 Theorem C09_validate_exact_fmap : forall typs,
   add_fmap typs = Ok <->
   (exists e r, typs = [ASig (TCons e TNil) (TCons r TNil) false; ASlice e]) \/
